@@ -1,5 +1,357 @@
 package main
 
-func cmdCheck(args []string) int    { return 2 }
-func cmdReplay(args []string) int   { return 2 }
+// govc check <property>: regenerate and discharge every claimed obligation, write evidence, report violations.
+
+import (
+	"encoding/json"
+	"flag"
+	"fmt"
+	"os"
+	"path/filepath"
+	"sort"
+	"strconv"
+	"strings"
+	"time"
+)
+
+type PropConfig struct {
+	ID          string   `json:"id"`
+	Packages    []string `json:"packages"`
+	Functions   []string `json:"functions"`
+	Lemmas      []string `json:"lemmas"`
+	Level       string   `json:"level"`
+	Assumptions []string `json:"assumptions"`
+	NotCovered  []string `json:"not_covered"`
+	Bounded     []string `json:"bounded"`
+	Explanation string   `json:"explanation"`
+}
+
+type Finding struct {
+	Kind       string `json:"kind"` // finding | fixed
+	Property   string `json:"property"`
+	Obligation string `json:"obligation"`
+	Case       string `json:"case"`
+	What       string `json:"what"`
+	Witness    string `json:"witness"`
+	Commit     string `json:"commit,omitempty"`
+}
+
+func loadFindings() []Finding {
+	var fs []Finding
+	b, err := os.ReadFile(filepath.Join(verifRoot, "known_findings.json"))
+	if err != nil {
+		return nil
+	}
+	if err := json.Unmarshal(b, &fs); err != nil {
+		fmt.Fprintln(os.Stderr, "known_findings.json:", err)
+	}
+	return fs
+}
+
+func cmdCheck(args []string) int {
+	fs := flag.NewFlagSet("check", flag.ExitOnError)
+	tier := fs.String("tier", "quick", "quick|thorough")
+	verbose := fs.Bool("v", false, "verbose")
+	keep := fs.Bool("keep", false, "keep smt files")
+	noEvidence := fs.Bool("no-evidence", false, "do not write the evidence file (used by selftests)")
+	var id string
+	rest := args
+	if len(rest) > 0 && !strings.HasPrefix(rest[0], "-") {
+		id = rest[0]
+		rest = rest[1:]
+	}
+	fs.Parse(rest)
+	if id == "" && fs.NArg() > 0 {
+		id = fs.Arg(0)
+	}
+	if v := os.Getenv("VERIF_TIER"); v == "quick" || v == "thorough" {
+		*tier = v
+	}
+	seed := 0
+	if v := os.Getenv("VERIF_SEED"); v != "" {
+		seed, _ = strconv.Atoi(v)
+	}
+	t0 := time.Now()
+	var pc PropConfig
+	b, err := os.ReadFile(filepath.Join(verifRoot, "props", id+".json"))
+	if err != nil {
+		fmt.Fprintln(os.Stderr, err)
+		return 2
+	}
+	if err := json.Unmarshal(b, &pc); err != nil {
+		fmt.Fprintln(os.Stderr, err)
+		return 2
+	}
+	timeout := 20
+	if *tier == "thorough" {
+		timeout = 120
+	}
+	workDir := filepath.Join(verifRoot, "work", id)
+	os.RemoveAll(workDir)
+	replayDir := filepath.Join(verifRoot, "replays", id)
+	os.RemoveAll(replayDir)
+
+	var genFails []genFail
+	var all []*Obligation
+	var results []*FuncResult
+	ld, err := loadRepo(repoRoot, pc.Packages)
+	if err != nil {
+		genFails = append(genFails, genFail{id + "#load", err.Error()})
+	} else {
+		for _, key := range pc.Functions {
+			fn := ld.funcIndex[key]
+			if fn == nil {
+				genFails = append(genFails, genFail{key + "#generate", "function under contract not found in the current tree"})
+				continue
+			}
+			if ld.contractFor(fn) == nil {
+				genFails = append(genFails, genFail{key + "#generate", "no contract found for function (contract file missing or key changed)"})
+				continue
+			}
+			res := ld.verifyFunc(fn)
+			results = append(results, res)
+			if res.Unsupported != "" {
+				genFails = append(genFails, genFail{key + "#generate", "UNSUPPORTED: " + res.Unsupported})
+				continue
+			}
+			if len(res.Obs) == 0 {
+				genFails = append(genFails, genFail{key + "#generate", "no obligations generated (vacuous)"})
+			}
+		}
+		for _, ln := range pc.Lemmas {
+			l := ld.findLemma(ln)
+			if l == nil {
+				genFails = append(genFails, genFail{"lemma:" + ln + "#generate", "lemma not found"})
+				continue
+			}
+			res := ld.verifyLemma(l)
+			results = append(results, res)
+			if res.Unsupported != "" {
+				genFails = append(genFails, genFail{"lemma:" + ln + "#generate", "UNSUPPORTED: " + res.Unsupported})
+			}
+		}
+	}
+	// known findings: split the named obligations
+	findings := loadFindings()
+	type canary struct {
+		f Finding
+		o *Obligation
+	}
+	var canaries []canary
+	for _, res := range results {
+		var extra []*Obligation
+		for _, o := range res.Obs {
+			for _, f := range findings {
+				if f.Kind != "finding" || f.Property != id || f.Obligation != o.Name || o.Cover {
+					continue
+				}
+				caseT := True
+				if f.Case != "" && res.ex != nil {
+					ct, err := res.ex.evalCase(res, f.Case)
+					if err != nil {
+						genFails = append(genFails, genFail{o.Name + "#known-finding-case", err.Error()})
+						continue
+					}
+					caseT = ct
+				}
+				c := &Obligation{Name: o.Name + "@known", Kind: "canary", Fn: o.Fn, Cover: true, Src: f.What,
+					Hyps: append(append([]*Term{}, o.Hyps...), caseT, Not(o.Goal)), ex: o.ex, st: o.st}
+				extra = append(extra, c)
+				canaries = append(canaries, canary{f, c})
+				o.Hyps = append(append([]*Term{}, o.Hyps...), Not(caseT))
+			}
+		}
+		res.Obs = append(res.Obs, extra...)
+		all = append(all, res.Obs...)
+	}
+	solveAll(all, workDir, timeout, *keep)
+
+	// ---- report
+	violations := 0
+	exit := 0
+	var samples []map[string]interface{}
+	perSolver := map[string]int{}
+	solverSecs := map[string]float64{}
+	nObl, nDis, nCover, nCanary := 0, 0, 0, 0
+	isCanary := map[*Obligation]bool{}
+	for _, c := range canaries {
+		isCanary[c.o] = true
+	}
+	for _, o := range all {
+		if isCanary[o] {
+			nCanary++
+			continue
+		}
+		if o.Cover {
+			nCover++
+		}
+		nObl++
+		if o.ok() {
+			nDis++
+			perSolver[o.Res.Solver]++
+			solverSecs[o.Res.Solver] += o.Res.Secs
+		}
+		if *verbose {
+			fmt.Printf("  %-8s %-9s %5.2fs %s\n", o.Res.Status, o.Res.Solver, o.Res.Secs, o.Name)
+		}
+		if len(samples) < 12 || !o.ok() {
+			samples = append(samples, map[string]interface{}{"obligation": o.Name, "kind": o.Kind, "clause": o.Src,
+				"status": o.Res.Status, "solver": o.Res.Solver, "secs": round3(o.Res.Secs), "pos": posStr(o)})
+		}
+	}
+	for _, c := range canaries {
+		if c.o.Res.Status == "sat" {
+			fmt.Printf("KNOWN-FINDING: property=%s %s [%s]\n", id, c.f.What, c.f.Obligation)
+		}
+	}
+	os.MkdirAll(replayDir, 0o755)
+	for _, g := range genFails {
+		violations++
+		p := filepath.Join(replayDir, sanitize(g.name)+".json")
+		writeJSON(p, map[string]interface{}{"property": id, "obligation": g.name, "reason": g.reason,
+			"note": "the obligations of this function could not be generated from the current tree, so the property is not shown to hold"})
+		fmt.Printf("VIOLATION property=%s replay=%s obligation=%s no-failing-input-found\n", id, p, g.name)
+	}
+	for _, o := range all {
+		if isCanary[o] || o.ok() {
+			continue
+		}
+		violations++
+		p := filepath.Join(replayDir, sanitize(o.Name)+".json")
+		rep := map[string]interface{}{"property": id, "obligation": o.Name, "kind": o.Kind, "clause": o.Src, "pos": posStr(o),
+			"solver_status": o.Res.Status, "solver": o.Res.Solver, "per_solver": o.Res.PerSolver, "solver_output": truncate(o.Res.Output, 4000), "smt2": o.File}
+		reproduced := false
+		if o.Cover {
+			rep["note"] = "vacuity guard: this precondition / path must be satisfiable and is not"
+		} else if o.Res.Status == "sat" {
+			reproduced = tryReplay(ld, o, rep, replayDir)
+		}
+		writeJSON(p, rep)
+		if reproduced {
+			fmt.Printf("VIOLATION property=%s replay=%s obligation=%s\n", id, p, o.Name)
+		} else {
+			fmt.Printf("VIOLATION property=%s replay=%s obligation=%s no-failing-input-found\n", id, p, o.Name)
+		}
+	}
+	if violations > 0 {
+		exit = 1
+	}
+	// ---- evidence
+	var funcs, trusted, havoced, notes []string
+	tset := map[string]bool{}
+	hset := map[string]bool{}
+	for _, r := range results {
+		funcs = append(funcs, r.Fn)
+		for _, t := range r.Trusted {
+			tset[t] = true
+		}
+		for _, h := range r.Havoced {
+			hset[h] = true
+		}
+		notes = append(notes, r.Notes...)
+	}
+	for t := range tset {
+		trusted = append(trusted, t)
+	}
+	for h := range hset {
+		havoced = append(havoced, "external call havoced (result and reachable memory arbitrary): "+h)
+	}
+	sort.Strings(trusted)
+	sort.Strings(havoced)
+	tb := []string{"govc VC generator (this repository, /verif/govc): Go/SSA semantics, memory model, contract evaluation",
+		"golang.org/x/tools/go/ssa v0.29.0 (Go source -> SSA lowering)", "SMT solvers: z3 5.1.0 (z3-new), z3 4.8.12, cvc5 1.0"}
+	tb = append(tb, trusted...)
+	assumptions := append([]string{}, pc.Assumptions...)
+	assumptions = append(assumptions, havoced...)
+	assumptions = append(assumptions, "function bodies are verified as sequential code (no goroutine interleaving)",
+		"slice lengths and capacities are below 2^40; heap references loaded from memory were allocated earlier")
+	for _, n := range pc.NotCovered {
+		assumptions = append(assumptions, "not covered: "+n)
+	}
+	level := pc.Level
+	if level == "" {
+		level = "proof"
+	}
+	cov := map[string]interface{}{
+		"obligations": nObl, "discharged": nDis, "vacuity_covers": nCover, "known_finding_canaries": nCanary,
+		"checker_cmd":              fmt.Sprintf("bin/govc check %s --tier %s", id, *tier),
+		"trusted_base":             tb,
+		"functions_under_contract": funcs,
+		"per_backend_discharged":   perSolver,
+		"per_backend_seconds":      roundMap(solverSecs),
+		"samples":                  samples,
+		"bounded":                  pc.Bounded,
+		"unsupported_or_missing":   genFailNames(genFails),
+		"solver_timeout_s":         timeout,
+		"integers":                 "exact machine integers (bit-vectors of the Go width); nothing treated as mathematical",
+		"floats":                   "uninterpreted functions per operation (congruence only) unless a lemma states otherwise",
+		"explanation":              pc.Explanation,
+		"engine_notes":             notes,
+	}
+	ev := map[string]interface{}{"property_id": id, "tier": *tier, "seed": seed, "level": level, "coverage": cov,
+		"assumptions": assumptions, "wall_s": round3(time.Since(t0).Seconds()), "violations": violations}
+	if !*noEvidence {
+		if err := writeJSON(filepath.Join(verifRoot, "evidence", id+".json"), ev); err != nil {
+			fmt.Fprintln(os.Stderr, "evidence:", err)
+			return 2
+		}
+	}
+	fmt.Printf("%s [%s]: %d/%d obligations discharged, %d functions, %d violations, %.1fs\n", id, *tier, nDis, nObl, len(funcs), violations, time.Since(t0).Seconds())
+	if exit == 0 {
+		os.RemoveAll(workDir)
+	}
+	return exit
+}
+
+type genFail struct{ name, reason string }
+
+func genFailNames(g []genFail) []string {
+	var out []string
+	for _, x := range g {
+		out = append(out, x.name+": "+x.reason)
+	}
+	return out
+}
+
+func posStr(o *Obligation) string {
+	if o.Pos.Filename == "" {
+		return ""
+	}
+	return fmt.Sprintf("%s:%d", strings.TrimPrefix(o.Pos.Filename, repoRoot+"/"), o.Pos.Line)
+}
+
+func round3(f float64) float64 { return float64(int(f*1000+0.5)) / 1000 }
+
+func roundMap(m map[string]float64) map[string]float64 {
+	r := map[string]float64{}
+	for k, v := range m {
+		r[k] = round3(v)
+	}
+	return r
+}
+
+func truncate(s string, n int) string {
+	if len(s) > n {
+		return s[:n] + "..."
+	}
+	return s
+}
+
+// evalCase evaluates a known-finding case expression over the entry state of the function.
+func (ex *Exec) evalCase(res *FuncResult, src string) (t *Term, err error) {
+	defer func() {
+		if r := recover(); r != nil {
+			err = fmt.Errorf("case %q: %v", src, r)
+		}
+	}()
+	e, perr := parseExpr(src)
+	if perr != nil {
+		return nil, perr
+	}
+	env := *res.entryEnv
+	env.st = ex.entry
+	return ex.evalBool(&env, e), nil
+}
+
+
 func cmdSelftest(args []string) int { return 2 }
